@@ -5,6 +5,12 @@
    terminate (index, slice, type assertion, integer division, pointer dereference, panic call, non-range loop, goto)
    and everything the bodies call apart from fmt / strings / sort / strconv, builtins and conversions.
 
+   Helpers of the same package that a String body calls are walked as part of that body (extracting a block into a
+   helper changes nothing); the type's own Encode / encode / Protocol / protocolDiff and other String methods are NOT
+   walked: they are admitted by NAME ([audited_callees]) - Encode bodies are modelled or run by the oracle, String
+   bodies are inventoried themselves - and so are the two utils helpers.  This is a syntactic bound on the bodies, not
+   a proof that String() never panics: the argument for the admitted callees is the comment below and the oracle.
+
    The obligations bound both by what was audited by hand.  A body made only of fmt.Sprintf / strings.Join over
    fields, range loops and calls of audited functions cannot panic and terminates, so a String method that is NOT in
    [audited_ops] is total by construction; one that is has the listed operations and no more, each justified below
